@@ -1384,3 +1384,61 @@ Example rendered_nonvacuous :
   select_fields (map norm_field ex_fields) =
     FlatOk "demo" (Some "1.0") ["requests[security] (>=2.0) ; extra == 'net'"; "six"].
 Proof. vm_compute. repeat split. Qed.
+
+(* ------------------------------------------------------------------------------------ *)
+(* M. reads depend on the archive's content NOW, whatever was read or written before *)
+
+Lemma run_ops_app vok rok ops1 : forall st ops2,
+  run_ops vok rok st (ops1 ++ ops2)%list =
+  (run_ops vok rok st ops1 ++ run_ops vok rok (fs_after st ops1) ops2)%list.
+Proof.
+  induction ops1 as [|o ops1 IH]; intros st ops2; [reflexivity|].
+  destruct o as [p a|p]; cbn [app run_ops fs_after]; [apply IH|].
+  rewrite IH. reflexivity.
+Qed.
+Lemma fs_after_app ops1 : forall st ops2, fs_after st (ops1 ++ ops2)%list = fs_after (fs_after st ops1) ops2.
+Proof.
+  induction ops1 as [|o ops1 IH]; intros st ops2; [reflexivity|].
+  destruct o as [p a|p]; cbn [app fs_after]; apply IH.
+Qed.
+Lemma lookup_after_no_write p mid : forall st,
+  forallb (fun o => negb (writes_to p o)) mid = true ->
+  lookup_file p (fs_after st mid) = lookup_file p st.
+Proof.
+  induction mid as [|o mid IH]; intros st H; [reflexivity|].
+  cbn [forallb] in H. apply andb_true_iff in H as [Ho H].
+  destruct o as [q a|q]; cbn [fs_after]; [|apply IH; exact H].
+  rewrite (IH _ H). unfold lookup_file. cbn [List.find fst].
+  cbn [writes_to] in Ho. apply negb_true_iff in Ho. rewrite Ho. reflexivity.
+Qed.
+
+(* the last read of [p] answers from the archive most recently written to [p] *)
+Theorem read_sees_current_content vok rok st pre p a mid :
+  forallb (fun o => negb (writes_to p o)) mid = true ->
+  exists front,
+    run_ops vok rok st (pre ++ WriteFile p a :: mid ++ [ReadWheel p])%list =
+    (front ++ [Answer (extract_whl vok rok p a)])%list.
+Proof.
+  intros H.
+  exists (run_ops vok rok st pre ++ run_ops vok rok ((p, a) :: fs_after st pre) mid)%list.
+  rewrite run_ops_app. cbn [run_ops]. rewrite run_ops_app. cbn [run_ops].
+  rewrite <- app_assoc. do 2 f_equal.
+  unfold answer_now. rewrite (lookup_after_no_write p mid _ H).
+  unfold lookup_file. cbn [List.find fst snd]. rewrite String.eqb_refl. reflexivity.
+Qed.
+
+(* two processes with different pasts but the same file at [p] now get the same answer *)
+Theorem read_history_independent vok rok st1 st2 ops1 ops2 p :
+  lookup_file p (fs_after st1 ops1) = lookup_file p (fs_after st2 ops2) ->
+  run_ops vok rok (fs_after st1 ops1) [ReadWheel p] = run_ops vok rok (fs_after st2 ops2) [ReadWheel p].
+Proof. intros H. cbn [run_ops]. unfold answer_now. rewrite H. reflexivity. Qed.
+
+Example read_sequence_nonvacuous :
+  let good v := Zip [("a-1.dist-info/METADATA", Content ("Name: a" ++ String nl ("Version: " ++ v ++ String nl "")))] in
+  run_ops (fun _ => true) (fun _ => true) []
+    [ReadWheel "a-1-py3-none-any.whl"; WriteFile "a-1-py3-none-any.whl" NotZip; ReadWheel "a-1-py3-none-any.whl";
+     WriteFile "a-1-py3-none-any.whl" (good "1"); ReadWheel "a-1-py3-none-any.whl";
+     WriteFile "a-1-py3-none-any.whl" (good "2"); ReadWheel "a-1-py3-none-any.whl"; ReadWheel "a-1-py3-none-any.whl"] =
+  [NoSuchFile; Answer (Err MetadataError); Answer (Ok ("a", Some "1", [])); Answer (Ok ("a", Some "2", []));
+   Answer (Ok ("a", Some "2", []))].
+Proof. vm_compute. reflexivity. Qed.
